@@ -638,7 +638,7 @@ func (p *Parser) parseTernaryExpression(condition ast.Expression) ast.Expression
 		Condition: condition,
 	}
 	p.nextToken() //skip the '?'
-	precedence := p.curPrecedence()
+	precedence := LOWEST
 	expression.IfTrue = p.parseExpression(precedence)
 
 	// error?
